@@ -68,7 +68,7 @@ func (g *gen) randomMesh() project.PMesh {
 	if g.r.Intn(12) == 0 {
 		nv = 0
 	}
-	p := project.PMesh{Topo: topo, Idx: []int{}, Attrs: []project.PAttr{}, Mats: []project.PMat{}, Exact: true, Fp: []int{}}
+	p := project.PMesh{Topo: topo, Idx: []int{}, Attrs: []project.PAttr{}, Mats: []project.PMat{}, Exact: true, Bx: true, Fp: []int{}}
 	if nv > 0 {
 		keys := []akey{}
 		if g.r.Intn(10) > 0 {
